@@ -55,6 +55,43 @@ Proof. exact unsubscribe_closes. Qed.
 Check C09_unsubscribe_closes : forall c, o_open (ostep c OUnsub) = false \/ o_unsub c = true.
 Print Assumptions C09_unsubscribe_closes.
 
+(* ------------------------------------------------------------------ subscribe_on *)
+(* Model/ConcSubscribeOn.v: subscribing posts ONE task; the source emits its whole script inside that task, on the
+   worker thread; finalize aborts the scheduler.  Same three statements: prefix in order at every moment (and nothing
+   but the subscription task is ever posted), everything at quiescence without an unsubscribe, nothing after close. *)
+From RX Require Import ConcSubscribeOn.
+From RXP Require Import SubscribeOnConc.
+Theorem C09_subscribe_on_prefix :
+  forall n term acts,
+  let c := brun acts (binit n term) in
+  b_log c = seq 0 (length (b_log c)) /\ length (b_log c) <= b_k c /\ b_k c <= n /\ q_posted (b_q c) = [0].
+Proof. exact subscribe_on_prefix. Qed.
+Check C09_subscribe_on_prefix :
+  forall n term acts,
+  let c := brun acts (binit n term) in
+  b_log c = seq 0 (length (b_log c)) /\ length (b_log c) <= b_k c /\ b_k c <= n /\ q_posted (b_q c) = [0].
+Print Assumptions C09_subscribe_on_prefix.
+Theorem C09_subscribe_on_complete :
+  forall n term acts,
+  let c := brun acts (binit n term) in
+  b_unsub c = false -> (forall a, bstep c a = c) -> b_log c = seq 0 n.
+Proof. exact subscribe_on_complete. Qed.
+Check C09_subscribe_on_complete :
+  forall n term acts,
+  let c := brun acts (binit n term) in
+  b_unsub c = false -> (forall a, bstep c a = c) -> b_log c = seq 0 n.
+Print Assumptions C09_subscribe_on_complete.
+Theorem C09_subscribe_on_nothing_after_close :
+  forall acts c, b_open c = false -> b_log (brun acts c) = b_log c.
+Proof. exact subscribe_on_nothing_after_close. Qed.
+Check C09_subscribe_on_nothing_after_close :
+  forall acts c, b_open c = false -> b_log (brun acts c) = b_log c.
+Print Assumptions C09_subscribe_on_nothing_after_close.
+Example C09_subscribe_on_example :
+  let c := brun [BWorker QCheck; BEmit; BEmit; BEmit; BReturn; BWorker QCheck] (binit 3 true) in
+  b_log c = [0; 1; 2] /\ q_worker (b_q c) = WExited.
+Proof. vm_compute. split; reflexivity. Qed.
+
 (* Non-vacuity: three events, the worker sleeps, is woken, delivers; the terminal's task aborts the scheduler;
    and a run in which an unsubscribe discards the queued tail. *)
 Example C09_example_all :
